@@ -204,6 +204,11 @@ sb_error_t sb_i_rth_plan_init_from_parser(sb_rth_plan_t* plan, sb_binary_file_pa
  */
 sb_error_t sb_rth_plan_init_from_buffer(sb_rth_plan_t* plan, uint8_t* buf, size_t nbytes)
 {
+    /* the header consists of the scale byte and the 16-bit number of points */
+    if (nbytes < 1 + sizeof(uint16_t)) {
+        return SB_EPARSE;
+    }
+
     plan->buffer = buf;
     plan->buffer_length = nbytes;
     plan->owner = 0;
@@ -271,6 +276,11 @@ sb_error_t sb_rth_plan_get_point(const sb_rth_plan_t* plan, size_t index, sb_vec
     }
 
     offset = OFFSET_OF_POINT(index);
+    if (offset + 2 * sizeof(int16_t) > plan->buffer_length) {
+        /* point table is truncated */
+        return SB_EPARSE;
+    }
+
     point->x = sb_i_rth_plan_parse_coordinate(plan, &offset);
     point->y = sb_i_rth_plan_parse_coordinate(plan, &offset);
 
@@ -317,6 +327,11 @@ sb_error_t sb_rth_plan_evaluate_at(const sb_rth_plan_t* plan, float time, sb_rth
     for (i = 0; i < num_entries && !found; i++) {
         uint8_t flags, encoded_action;
         uint32_t time_diff_s;
+
+        if (offset >= plan->buffer_length) {
+            /* entry table is truncated */
+            return SB_EPARSE;
+        }
 
         flags = plan->buffer[offset++];
 
@@ -368,6 +383,9 @@ sb_error_t sb_rth_plan_evaluate_at(const sb_rth_plan_t* plan, float time, sb_rth
 
             /* If the action has a target altitude, parse it */
             if (sb_i_rth_action_has_target_altitude(entry.action)) {
+                if (offset + sizeof(int16_t) > plan->buffer_length) {
+                    return SB_EPARSE;
+                }
                 entry.target_altitude = sb_i_rth_plan_parse_coordinate(plan, &offset);
             } else {
                 entry.target_altitude = 0;
@@ -375,6 +393,9 @@ sb_error_t sb_rth_plan_evaluate_at(const sb_rth_plan_t* plan, float time, sb_rth
 
             /* If the action has a pre-neck, parse its size and duration */
             if (sb_i_rth_action_has_neck(entry.action)) {
+                if (offset + sizeof(int16_t) > plan->buffer_length) {
+                    return SB_EPARSE;
+                }
                 entry.pre_neck_mm = sb_i_rth_plan_parse_coordinate(plan, &offset);
                 SB_CHECK(sb_i_rth_plan_parse_duration(plan, &offset, &entry.pre_neck_duration_sec));
             } else {
